@@ -3,11 +3,13 @@ use serde_json::Value;
 
 pub type AreaFn = fn(&Value) -> Vec<Value>;
 
+mod ows;
 mod time;
 
 pub fn lookup(name: &str) -> Option<AreaFn> {
     match name {
         "time" => Some(time::run),
+        "ows" => Some(ows::run),
         _ => None,
     }
 }
